@@ -91,8 +91,11 @@ def mal_event(args):
         schema, C, R = _W["s5"], _W["bp5"], _W["ref5"]
     ev = {"op": "mal", "ty": ty, "b": list(b), "res": "ok", "typed": True, "note": "", "reenc": "ok", "obs": gen.fresh(schema, ty), "b2": [],
           "exc": "", "ref": "", "case": {"ty": ty, "tag": tag, "schema": which}}
+    # non-termination = 5 s of the process's own CPU time in one parse (a loaded machine cannot trip it); 120 s wall as a backstop
     old = signal.signal(signal.SIGALRM, _alarm)
-    signal.setitimer(signal.ITIMER_REAL, 5.0)
+    oldp = signal.signal(signal.SIGPROF, _alarm)
+    signal.setitimer(signal.ITIMER_PROF, 5.0)
+    signal.setitimer(signal.ITIMER_REAL, 120.0)
     try:
         try:
             m = C[ty]().parse(bytes(b))
@@ -117,8 +120,10 @@ def mal_event(args):
                 except Exception as ex:
                     ev["reenc"] = (type(ex).__name__ + ":" + str(ex))[:90]
     finally:
+        signal.setitimer(signal.ITIMER_PROF, 0)
         signal.setitimer(signal.ITIMER_REAL, 0)
         signal.signal(signal.SIGALRM, old)
+        signal.signal(signal.SIGPROF, oldp)
     try:
         r = R[ty]()
         r.ParseFromString(bytes(b))
@@ -206,7 +211,7 @@ def run(ctx):
                 "from {00,07,0B,0C,0E,80,FF,01,7F} x every wire-type flip of each tag; (ii) all byte strings up to length 3 (quick) / 4 "
                 "(thorough, sampled) over a 24-symbol tag/length/payload alphabet for schema M5; (iii) seeded random byte strings; "
                 "non-trivial = not a valid encoding accepted by the spec decoder without unknown fields; distinct by (type, bytes)")
-    ctx.assumptions = ["a parse that does not finish within 5 s is counted as non-termination",
+    ctx.assumptions = ["a parse that uses 5 s of CPU time (or 120 s of wall time) is counted as non-termination",
                        "the reference decoder's accept/reject decision is recorded per input (informational)",
                        "SpecDecode (spec/Codec.tla, Wire.tla) is the ideal decoder; rejecting any input is always allowed"]
     # (0) the criteria on the specification itself: the ideal reader explored on every byte string up to a bound
